@@ -126,6 +126,7 @@ def check(rng, deep):
                 ('pair_het', m.pair_het, m.PAIR_CALIB, ['r', 'atw', 'shift', 'risk', 'sd_e'], ['A', 'C', 'UC'], True),
                 ('pair_stage', m.pair_stage, m.PAIR_CALIB, ['r', 'atw', 'shift', 'risk', 'sd_e'], ['A', 'C', 'UC'], False),
                 ('multi', m.multi, mc, ['r', 'w', 'shift_e', 'shift_z'], ['A', 'C'], True),
+                ('multi_stage', m.multi_stage, mc, ['r', 'shift_e', 'shift_z'], ['A', 'C'], False),      # two exogenous STAGES with separately produced Markov matrices: shocking one leaves the other stage's law of motion unperturbed
                 ('twoasset', m.twoasset, m.TWO_CALIB, ['rb', 'ra', 'tax'], ['A', 'B', 'C'], True),
                 ('twoasset_stage', m.twoasset_stage, m.TWO_CALIB, ['rb', 'ra', 'tax'], ['A', 'B', 'C'], False),      # two-dimensional policy lottery, as HetBlock and as a stage
                 ('dchoice', m.dchoice, m.DCHOICE_CALIB, ['r', 'atw', 'f', 'vphi'], ['A', 'C'], False)]       # stage block with a logit discrete-choice stage and two exogenous stages
